@@ -6,7 +6,7 @@
                        parse_mlsx_line(info[1].lstrip()), and on a 50x reply the fallback
                        `for p, info in await self.list(path.parent): if p.name == path.name`
    The reply framing itself is Model/Framing.v (C06).  No proofs here. *)
-From Coq Require Import ZArith List Bool.
+From Coq Require Import ZArith QArith Qround List Bool.
 From Verif Require Import Lib.Sx Lib.PyStr Lib.PyStr2 Lib.Civil Model.LsDate Model.Listing.
 Import ListNotations.
 Open Scope Z_scope.
@@ -108,6 +108,11 @@ Definition list_worker (half off now : Z) (faulty : dentry -> bool) (dir : list 
                                 | None => []
                                 end) dir.
 
+(* ---- sub-second timestamps ----
+   st_mtime / st_ctime are floats (seconds with a fractional part); time.gmtime / time.localtime
+   FLOOR them.  A float is an exact rational num/den: the facts are those of its floor. *)
+Definition format_mlsx_time_real (q : Q) : text := format_mlsx_time (Qfloor q).
+
 (* ---- harness interface: extends run_listing ---- *)
 Definition sx_of_entry (e : list (text * text)) : sx := L (map sx_of_kv e).
 
@@ -133,5 +138,7 @@ Definition run_listing_client (fn : Z) (a : sx) : sx :=
       I (match worker_lines (fun e => negb (de_kind e =? 0)) (fun _ => [])
                  (map (fun f => mkdentry [] None (z_of_sx f)) (list_of_sx (nth_sx 0 a))) with
          | Some _ => 1 | None => 0 end)
+  | 36 => (* _format_mlsx_time of the float num/den (den > 0) *)
+      sx_of_text (format_mlsx_time_real (Qmake (z 0%nat) (Z.to_pos (z 1%nat))))
   | _ => run_listing fn a
   end.
